@@ -151,6 +151,11 @@ func (in *interp) transform(sc scope, t *Transform, viewRetSet bool) (*Val, erro
 					}
 				}
 				if dup {
+					if rec.hasMultiSet() {
+						// equal records that hold sets: the statement does not say that equality
+						// of such records must ignore the order in which the sets were built
+						return nil, unpinned("set transform: equal records holding sets of several elements")
+					}
 					continue
 				}
 			}
